@@ -1,18 +1,26 @@
-// C06 harness: drives the real release entry points (operator delete / delete[], cpputest_free, cpputest_realloc and
-// MemoryLeakAllocator::free_memory) on a private MemoryLeakDetector installed as the global one, with
+// C06 harness: drives the real allocating and releasing entry points -- every form of operator new / new[] / delete / delete[]
+// (plain, nothrow, sized, file/line with int and size_t line), cpputest_malloc / _location / calloc / strdup / strndup / free / realloc,
+// MemoryLeakAllocator and the detector's own allocMemory / deallocMemory -- on a private MemoryLeakDetector installed as the global
+// one, under the overload wiring the scenario's own history of turnOff / turnOnDefaultNotThreadSafe / turnOnThreadSafe /
+// saveAndDisable / restoreNewDeleteOverloads calls produces, with
 //   * a recording MemoryLeakFailure (category = first line of the text handed to fail(); optionally it does not return but
 //     longjmps out, like the plugin's own reporter which ends the running test),
 //   * arena allocators that place every block at the address the scenario names and record, at free_memory time, the user
 //     bytes of the block they are handed,
 //   * real wrapper allocators of the library (AccountingTestMemoryAllocator, MemoryLeakAllocator) around them.
+// EVERY SCENARIO RUNS IN A FRESH PROCESS IMAGE (fork of a parent that never touches the overloads): the eleven function pointers
+// are what their static initialisers made them, the harness calls no switch of its own, and from the moment the private detector
+// is installed until the observation is complete the harness itself allocates nothing through operator new (the scenario is parsed
+// into plain records before, the observation is built in a malloc'ed buffer), so the pointers the scenario's calls go through are
+// exactly the ones its history left.  The detector's mutex is a counting stand-in (single thread): a non-returning reporter resets it.
 // Model address A = slot * SLOT + offset; the arena lays slot bases out so that real address == A modulo the hash prime.
 // Addresses NSLOTS*SLOT + k (k = 0,1,2) are a stack object, a static object and a block from the C library's malloc.
 // The detector is left exactly as the scenario's history puts it: fresh from its constructor (period disabled, stage 0, type checking
 // on), then enable() / disable() / startChecking() / stopChecking() / increase- / decreaseAllocationStage() / type checking switches
 // only where the scenario says so.  (The text buffer of the detector accumulates reports; it is emptied before every release through
 // the private member, not through startChecking(), which would also move the period.)
-// Entries 4 / 5 call the detector's own allocMemory / deallocMemory with allocatNodesSeperately = false / true and an arbitrary
-// allocator object; `:m 1` installs the thread-safe overloads (same bodies behind the detector's lock).
+// The three current allocators start as hidden arena allocators carrying the standard names, so that a call routed to the wrong
+// family's allocator still lands in the arena and shows up as a wrong report, not as a harness error.
 // Scenario / observation grammar: ocaml/c06_driver.ml.
 #include <new>
 #include <string>
@@ -26,6 +34,12 @@
 #include <cstddef>
 #include <cstring>
 #include <climits>
+#include <cerrno>
+#include <csignal>
+#include <unistd.h>
+#include <sys/types.h>
+#include <sys/wait.h>
+#include <sys/prctl.h>
 #include "CppUTest/CppUTestConfig.h"      // pulls the standard headers it wants in before the next line
 #define private public                    // MemoryLeakDetector::outputBuffer_ (see above)
 #include "CppUTest/TestHarness.h"
@@ -117,8 +131,16 @@ static void* arena_realloc(void* mem, size_t size)
 
 static jmp_buf opJmp;
 static bool jumpMode, armed;
-static bool threadSafe, lockHeld;         // lockHeld: the running release went in through a thread-safe overload
+static int lockDepth;                     // the detector's mutex: a counter (one thread)
 static MemoryLeakDetector* det;
+static PlatformSpecificMutex fakeCreate(void) { return (PlatformSpecificMutex)&lockDepth; }
+static void fakeLock(PlatformSpecificMutex)
+{
+    if (lockDepth > 0) { fprintf(stderr, "harness: the detector's mutex is taken while it is held (a real mutex would hang here)\n"); abort(); }
+    lockDepth++;
+}
+static void fakeUnlock(PlatformSpecificMutex) { if (lockDepth > 0) lockDepth--; }
+static void fakeDestroy(PlatformSpecificMutex) {}
 struct Recorder : public MemoryLeakFailure
 {
     int calls = 0; int cat = 0;
@@ -133,7 +155,7 @@ struct Recorder : public MemoryLeakFailure
         if (jumpMode && armed) {
             // a reporter that leaves by longjmp from inside a thread-safe overload has to give the detector's lock back itself
             // (the plugin's own reporter does the same)
-            if (lockHeld) { lockHeld = false; det->getMutex()->Unlock(); }
+            lockDepth = 0;
             longjmp(opJmp, 1);
         }
     }
@@ -142,10 +164,37 @@ struct Recorder : public MemoryLeakFailure
 static Recorder rep;
 static std::vector<TestMemoryAllocator*> objs;
 static std::vector<bool> isMla;
-static std::vector<std::string*> names;
 
-static void on() { if (threadSafe) MemoryLeakWarningPlugin::turnOnThreadSafeNewDeleteOverloads(); else MemoryLeakWarningPlugin::turnOnDefaultNotThreadSafeNewDeleteOverloads(); }
-static void off() { MemoryLeakWarningPlugin::turnOffNewDeleteOverloads(); }
+// ---- the scenario, parsed before anything is switched or installed
+enum Kind { K_ALLOC, K_FREE, K_REALLOC, K_WRITE, K_TC, K_PERIOD, K_STAGE, K_SWITCH };
+struct Op {
+    Kind kind;
+    int e;                     // 0 new, 1 new[], 2 malloc family (through a form), 3 MemoryLeakAllocator, 4 / 5 detector directly
+    int form;                  // allocating / releasing form (e <= 2)
+    size_t al; bool isNull; unsigned long long addr, na; size_t n; std::string bytes; int k;
+};
+static const int AFORM_FAMILY[13] = { 0, 0, 0, 0, 1, 1, 1, 1, 2, 2, 2, 2, 2 };
+static const int RFORM_FAMILY[12] = { 0, 0, 0, 0, 0, 1, 1, 1, 1, 1, 2, 2 };
+static const int PLAIN_AFORM[3] = { 0, 4, 8 }, PLAIN_RFORM[3] = { 0, 5, 10 };
+
+// ---- the observation: a malloc'ed text buffer (no operator new while the scenario runs)
+static char* outBuf; static size_t outLen, outCap;
+static void outRaw(const char* t, size_t n)
+{
+    if (outLen + n + 1 > outCap) { outCap = (outLen + n + 1) * 2 + 4096; outBuf = (char*)realloc(outBuf, outCap); if (!outBuf) { fprintf(stderr, "harness: out of memory\n"); exit(3); } }
+    memcpy(outBuf + outLen, t, n); outLen += n; outBuf[outLen] = 0;
+}
+static void outTok(const char* t) { if (outLen) outRaw(" ", 1); outRaw(t, strlen(t)); }
+static void outHex(unsigned long long v) { char b[32]; snprintf(b, sizeof b, "%llx", v); outTok(b); }
+static void outBytes(const unsigned char* p, size_t n)
+{
+    static const char* H = "0123456789abcdef";
+    static char tmp[2 * (MAXSIZE + 8) + 2];
+    size_t k = 0; tmp[k++] = '$';
+    for (size_t i = 0; i < n; i++) { tmp[k++] = H[p[i] >> 4]; tmp[k++] = H[p[i] & 15]; }
+    tmp[k] = 0; outTok(tmp);
+}
+
 static TestMemoryAllocator* obj(size_t i) { if (i >= objs.size()) { fprintf(stderr, "harness: allocator index\n"); exit(3); } return objs[i]; }
 static void select(int e, size_t al)
 {
@@ -156,11 +205,184 @@ static void select(int e, size_t al)
     else if (e != 3 || !isMla[al]) { fprintf(stderr, "harness: entry %d needs a MemoryLeakAllocator\n", e); exit(3); }
 }
 
+static char strSource[MAXSIZE + 16];      // MAXSIZE + 8 times 'x', NUL: what strdup / strndup copy from
+
+static void* allocateThrough(int form, size_t n)
+{
+    switch (form) {
+    case 0: return ::operator new(n);
+    case 1: return ::operator new(n, std::nothrow);
+    case 2: return ::operator new(n, "alloc.cpp", (int)11);
+    case 3: return ::operator new(n, "alloc.cpp", (size_t)12);
+    case 4: return ::operator new[](n);
+    case 5: return ::operator new[](n, std::nothrow);
+    case 6: return ::operator new[](n, "alloc.cpp", (int)13);
+    case 7: return ::operator new[](n, "alloc.cpp", (size_t)14);
+    case 8: return cpputest_malloc(n);
+    case 9: return cpputest_malloc_location(n, "alloc.c", 15);
+    case 10: return cpputest_calloc(n, 1);
+    case 11: { const char* src = strSource + (MAXSIZE + 8 - (n - 1)); return cpputest_strdup(src); }       // strlen(src) == n - 1
+    case 12: return cpputest_strndup(strSource, n - 1);                                                      // longer source, cut at n - 1
+    default: fprintf(stderr, "harness: bad allocating form %d\n", form); exit(3);
+    }
+}
+static void releaseThrough(int form, char* p, size_t sizeHint)
+{
+    switch (form) {
+    case 0: ::operator delete(p); break;
+    case 1: ::operator delete(p, sizeHint); break;
+    case 2: ::operator delete(p, std::nothrow); break;
+    case 3: ::operator delete(p, "release.cpp", (int)21); break;
+    case 4: ::operator delete(p, "release.cpp", (size_t)22); break;
+    case 5: ::operator delete[](p); break;
+    case 6: ::operator delete[](p, sizeHint); break;
+    case 7: ::operator delete[](p, std::nothrow); break;
+    case 8: ::operator delete[](p, "release.cpp", (int)23); break;
+    case 9: ::operator delete[](p, "release.cpp", (size_t)24); break;
+    case 10: cpputest_free(p); break;
+    case 11: cpputest_free_location(p, "release.c", 25); break;
+    default: fprintf(stderr, "harness: bad releasing form %d\n", form); exit(3);
+    }
+}
+
+static void parseOps(Toks& t, std::vector<Op>& ops)
+{
+    while (!t.end()) {
+        std::string op = t.sym();
+        Op o; o.kind = K_WRITE; o.e = 0; o.form = 0; o.al = 0; o.isNull = false; o.addr = o.na = 0; o.n = 0; o.k = 0;
+        if (op == "a" || op == "A") {
+            o.kind = K_ALLOC;
+            int c = t.n();
+            if (op == "a") { o.e = c; if (c < 0 || c > 5) { fprintf(stderr, "harness: bad entry\n"); exit(3); } if (c <= 2) o.form = PLAIN_AFORM[c]; }
+            else { if (c < 0 || c > 12) { fprintf(stderr, "harness: bad allocating form\n"); exit(3); } o.form = c; o.e = AFORM_FAMILY[c]; }
+            o.al = t.u(); o.addr = t.u(); o.n = t.u();
+            if (o.addr >= NSLOTS * SLOT || o.addr % SLOT || o.n > MAXSIZE) { fprintf(stderr, "harness: bad allocation address/size\n"); exit(3); }
+            if (o.e == 2 && (o.form == 11 || o.form == 12) && o.n == 0) { fprintf(stderr, "harness: strdup of size 0\n"); exit(3); }
+        }
+        else if (op == "f" || op == "F" || op == "r") {
+            o.kind = op == "r" ? K_REALLOC : K_FREE;
+            if (op == "r") { o.e = 2; }
+            else {
+                int c = t.n();
+                if (op == "f") { o.e = c; if (c < 0 || c > 5) { fprintf(stderr, "harness: bad entry\n"); exit(3); } if (c <= 2) o.form = PLAIN_RFORM[c]; }
+                else { if (c < 0 || c > 11) { fprintf(stderr, "harness: bad releasing form\n"); exit(3); } o.form = c; o.e = RFORM_FAMILY[c]; }
+            }
+            o.al = t.u();
+            std::string ps = t.next();
+            o.isNull = ps == "~"; if (!o.isNull) o.addr = strtoull(ps.c_str(), nullptr, 16);
+            if (op == "r") { o.na = t.u(); o.n = t.u(); if (o.na >= NSLOTS * SLOT || o.na % SLOT || o.n > MAXSIZE) { fprintf(stderr, "harness: bad realloc address/size\n"); exit(3); } }
+        }
+        else if (op == "w") {
+            o.kind = K_WRITE; o.addr = t.u(); t.bytes(o.bytes);
+            if (o.addr >= NSLOTS * SLOT || o.addr % SLOT + o.bytes.size() > SLOT) { fprintf(stderr, "harness: bad write\n"); exit(3); }
+        }
+        else if (op == "e") { o.kind = K_PERIOD; o.k = t.n(); if (o.k < 0 || o.k > 3) { fprintf(stderr, "harness: bad period operation\n"); exit(3); } }
+        else if (op == "s") { o.kind = K_STAGE; o.k = t.u() != 0; }
+        else if (op == "m") { o.kind = K_SWITCH; o.k = t.u() != 0 ? 2 : 1; }
+        else if (op == "o") { o.kind = K_SWITCH; o.k = t.n(); if (o.k < 0 || o.k > 4) { fprintf(stderr, "harness: bad overload switch\n"); exit(3); } }
+        else if (op == "t") { o.kind = K_TC; o.k = t.u() != 0; }
+        else { fprintf(stderr, "harness: bad op %s\n", op.c_str()); exit(3); }
+        ops.push_back(o);
+    }
+}
+
+static void runScenario(Toks& t)
+{
+    jumpMode = t.u() != 0;
+    MemoryAccountant* accountant = new MemoryAccountant;
+    std::vector<std::string*> names;
+    int nd = t.n();
+    for (int i = 0; i < nd; i++) {
+        std::string k = t.sym();
+        if (k == "p") {
+            std::string nm; t.bytes(nm); std::string* keep = new std::string(nm); names.push_back(keep);
+            const char* a = "alloc"; const char* f = "free";
+            if (nm == "Standard New Allocator") { a = "new"; f = "delete"; }
+            else if (nm == "Standard New [] Allocator") { a = "new []"; f = "delete []"; }
+            else if (nm == "Standard Malloc Allocator") { a = "malloc"; f = "free"; }
+            objs.push_back(new ArenaAllocator(keep->c_str(), a, f)); isMla.push_back(false);
+        }
+        else if (k == "k") { size_t j = t.u(); objs.push_back(new AccountingTestMemoryAllocator(*accountant, obj(j))); isMla.push_back(false); }
+        else if (k == "l") { size_t j = t.u(); objs.push_back(new MemoryLeakAllocator(obj(j))); isMla.push_back(true); }
+        else { fprintf(stderr, "harness: bad descriptor %s\n", k.c_str()); exit(3); }
+    }
+    std::vector<Op> ops;
+    parseOps(t, ops);
+    TestMemoryAllocator* hiddenNew = new ArenaAllocator("Standard New Allocator", "new", "delete");
+    TestMemoryAllocator* hiddenArr = new ArenaAllocator("Standard New [] Allocator", "new []", "delete []");
+    TestMemoryAllocator* hiddenMal = new ArenaAllocator("Standard Malloc Allocator", "malloc", "free");
+    memset(strSource, 'x', MAXSIZE + 8); strSource[MAXSIZE + 8] = 0;
+    memset(blockSize, 0, sizeof blockSize);
+    outCap = 1 << 16; outBuf = (char*)malloc(outCap); outLen = 0; outBuf[0] = 0;
+    void* (*savedRealloc)(void*, size_t) = PlatformSpecificRealloc;
+    det = new MemoryLeakDetector(&rep);
+    lockDepth = 0;
+    setCurrentNewAllocator(hiddenNew); setCurrentNewArrayAllocator(hiddenArr); setCurrentMallocAllocator(hiddenMal);
+    // ---- from here to the end of the loop: no operator new / delete of the harness' own, no overload switch of the harness' own
+    MemoryLeakWarningPlugin::setGlobalDetector(det, &rep);
+    for (size_t oi = 0; oi < ops.size(); oi++) {
+        const Op& o = ops[oi];
+        if (o.kind == K_ALLOC) {
+            select(o.e, o.al);
+            nextBlock = real_of(o.addr);
+            char* p;
+            if (o.e == 3) p = obj(o.al)->alloc_memory(o.n, "str.cpp", 3);
+            else if (o.e >= 4) p = det->allocMemory(obj(o.al), o.n, "direct.cpp", 5, o.e == 5);
+            else p = (char*)allocateThrough(o.form, o.n);
+            nextBlock = nullptr;
+            if (p != real_of(o.addr)) { fprintf(stderr, "harness: the allocation came back at another address (the overloads are off, or the request did not reach an arena allocator)\n"); exit(3); }
+            blockSize[o.addr / SLOT] = o.n;
+            memset(p, 0xA5, o.n);                                // the user program initialises its block
+        }
+        else if (o.kind == K_FREE || o.kind == K_REALLOC) {
+            bool isRealloc = o.kind == K_REALLOC;
+            char* p = o.isNull ? nullptr : real_of(o.addr);
+            select(o.e, o.al);
+            det->outputBuffer_.clear();                          // the report text starts at the category line; period untouched
+            rep.calls = 0; rep.cat = 0; nevents = 0;
+            char* volatile q = nullptr;
+            size_t hint = (!o.isNull && o.addr < NSLOTS * SLOT) ? blockSize[o.addr / SLOT] : 0;
+            if (isRealloc) { nextRealloc = real_of(o.na); PlatformSpecificRealloc = arena_realloc; }
+            armed = true;
+            if (setjmp(opJmp) == 0) {
+                if (o.e == 3) obj(o.al)->free_memory(p, 0, "str.cpp", 4);
+                else if (o.e >= 4) det->deallocMemory(obj(o.al), p, "direct.cpp", 6, o.e == 5);
+                else if (isRealloc) q = (char*)cpputest_realloc(p, o.n);
+                else releaseThrough(o.form, p, hint);
+            }
+            armed = false; lockDepth = 0;
+            PlatformSpecificRealloc = savedRealloc; nextRealloc = nullptr;
+            if (isRealloc && q) {
+                if (q != real_of(o.na)) { fprintf(stderr, "harness: realloc came back at another address\n"); exit(3); }
+                blockSize[o.na / SLOT] = o.n;
+                memset(q, 0x5A, o.n);
+            }
+            outTok("|"); outHex((unsigned long long)rep.calls); outHex((unsigned long long)rep.cat); outHex((unsigned long long)nevents);
+            for (int i = 0; i < nevents; i++) { outHex(events[i].addr); if (o.e >= 3) outTok("~"); else outBytes(evbytes[i], events[i].n); }
+            outHex(det->totalMemoryLeaks(mem_leak_period_all)); outTok(q ? "1" : "0");
+        }
+        else if (o.kind == K_WRITE) memcpy(real_of(o.addr), o.bytes.data(), o.bytes.size());
+        else if (o.kind == K_PERIOD) { if (o.k == 0) det->disable(); else if (o.k == 1) det->enable(); else if (o.k == 2) det->startChecking(); else det->stopChecking(); }
+        else if (o.kind == K_STAGE) { if (o.k) det->increaseAllocationStage(); else det->decreaseAllocationStage(); }
+        else if (o.kind == K_TC) { if (o.k) det->enableAllocationTypeChecking(); else det->disableAllocationTypeChecking(); }
+        else if (o.kind == K_SWITCH) {
+            if (o.k == 0) MemoryLeakWarningPlugin::turnOffNewDeleteOverloads();
+            else if (o.k == 1) MemoryLeakWarningPlugin::turnOnDefaultNotThreadSafeNewDeleteOverloads();
+            else if (o.k == 2) MemoryLeakWarningPlugin::turnOnThreadSafeNewDeleteOverloads();
+            else if (o.k == 3) MemoryLeakWarningPlugin::saveAndDisableNewDeleteOverloads();
+            else MemoryLeakWarningPlugin::restoreNewDeleteOverloads();
+        }
+    }
+    // the observation is complete; this process image ends here (nothing is torn down: whatever the overloads are now stays unused)
+    fputs(outBuf, stdout); fputs("\n", stdout); fflush(stdout);
+}
+
 int main()
 {
     setvbuf(stdout, NULL, _IONBF, 0);
-    off();
-    char onStack[64]; stackObject = onStack + 8;
+    // nothing below touches the overload switches: the children inherit the pointers as the static initialisers left them
+    PlatformSpecificMutexCreate = fakeCreate; PlatformSpecificMutexLock = fakeLock;
+    PlatformSpecificMutexUnlock = fakeUnlock; PlatformSpecificMutexDestroy = fakeDestroy;
     heapObject = (char*)malloc(64);
     stride = (SLOT + 8 * HP + 15) & ~(size_t)15;
     arena = (char*)malloc(NSLOTS * stride + SLOT + 64);
@@ -170,107 +392,54 @@ int main()
         for (size_t k = 0; k < HP; k++) if (((uintptr_t)(b + 8 * k)) % HP == (s * SLOT) % HP) { slotBase[s] = b + 8 * k; break; }
         if (!slotBase[s]) { fprintf(stderr, "harness: no offset\n"); exit(3); }
     }
-    void* (*savedRealloc)(void*, size_t) = PlatformSpecificRealloc;
-    Toks t;
-    while (readline(t)) {
-        std::string out;
-        jumpMode = t.u() != 0;
-        MemoryAccountant* accountant = new MemoryAccountant;
-        int nd = t.n();
-        for (int i = 0; i < nd; i++) {
-            std::string k = t.sym();
-            if (k == "p") {
-                std::string nm; t.bytes(nm); std::string* keep = new std::string(nm); names.push_back(keep);
-                const char* a = "alloc"; const char* f = "free";
-                if (nm == "Standard New Allocator") { a = "new"; f = "delete"; }
-                else if (nm == "Standard New [] Allocator") { a = "new []"; f = "delete []"; }
-                else if (nm == "Standard Malloc Allocator") { a = "malloc"; f = "free"; }
-                objs.push_back(new ArenaAllocator(keep->c_str(), a, f)); isMla.push_back(false);
+    // scenarios are independent process images, so up to WORKERS of them run side by side; the observations are printed in input order,
+    // and the first scenario whose process dies takes the harness down with it after everything before it has been printed (the
+    // runner records the crash for that scenario and starts a new harness on the next one)
+    const int WORKERS = 4;
+    std::vector<Toks> batch;
+    bool more = true;
+    while (more) {
+        batch.clear();
+        while ((int)batch.size() < WORKERS) { Toks t; if (!readline(t)) { more = false; break; } batch.push_back(t); }
+        if (batch.empty()) break;
+        fflush(stdout); fflush(stderr);
+        std::vector<pid_t> pids; std::vector<int> fds;
+        for (size_t b = 0; b < batch.size(); b++) {
+            int pfd[2];
+            if (pipe(pfd) != 0) { perror("harness: pipe"); exit(3); }
+            pid_t pid = fork();
+            if (pid < 0) { perror("harness: fork"); exit(3); }
+            if (pid == 0) {
+                prctl(PR_SET_PDEATHSIG, SIGKILL);
+                close(pfd[0]);
+                for (int fd : fds) close(fd);
+                if (dup2(pfd[1], 1) < 0) _exit(3);
+                close(pfd[1]);
+                char frame[64]; stackObject = frame + 8;
+                runScenario(batch[b]);
+                _exit(0);
             }
-            else if (k == "k") { size_t j = t.u(); objs.push_back(new AccountingTestMemoryAllocator(*accountant, obj(j))); isMla.push_back(false); }
-            else if (k == "l") { size_t j = t.u(); objs.push_back(new MemoryLeakAllocator(obj(j))); isMla.push_back(true); }
-            else { fprintf(stderr, "harness: bad descriptor %s\n", k.c_str()); exit(3); }
+            close(pfd[1]);
+            pids.push_back(pid); fds.push_back(pfd[0]);
         }
-        det = new MemoryLeakDetector(&rep);
-        MemoryLeakWarningPlugin::setGlobalDetector(det, &rep);
-        threadSafe = false; lockHeld = false;
-        memset(blockSize, 0, sizeof blockSize);
-        while (!t.end()) {
-            std::string op = t.sym();
-            if (op == "a") {
-                int e = t.n(); size_t al = t.u(); unsigned long long a = t.u(); size_t n = t.u();
-                if (a >= NSLOTS * SLOT || a % SLOT || n > MAXSIZE) { fprintf(stderr, "harness: bad allocation address/size\n"); exit(3); }
-                select(e, al);
-                nextBlock = real_of(a);
-                char* p;
-                if (e == 3) p = obj(al)->alloc_memory(n, "str.cpp", 3);
-                else if (e >= 4) p = det->allocMemory(obj(al), n, "direct.cpp", 5, e == 5);
-                else { on(); p = e == 0 ? (char*)::operator new(n) : e == 1 ? (char*)::operator new[](n) : (char*)cpputest_malloc(n); off(); }
-                nextBlock = nullptr;
-                if (p != real_of(a)) { fprintf(stderr, "harness: the allocation came back at another address\n"); exit(3); }
-                blockSize[a / SLOT] = n;
-                memset(p, 0xA5, n);                                  // the user program initialises its block
+        int failed = -1, failStatus = 0;
+        for (size_t b = 0; b < batch.size(); b++) {
+            std::string text; char buf[65536]; ssize_t r;
+            while ((r = read(fds[b], buf, sizeof buf)) > 0 || (r < 0 && errno == EINTR)) if (r > 0) text.append(buf, (size_t)r);
+            close(fds[b]);
+            int status = 0;
+            while (waitpid(pids[b], &status, 0) < 0) { if (errno != EINTR) { perror("harness: waitpid"); exit(3); } }
+            if (failed >= 0) continue;                          // a scenario before this one died: this one is run again by the next harness
+            if (WIFEXITED(status) && WEXITSTATUS(status) == 0 && !text.empty() && text.back() == '\n') { fputs(text.c_str(), stdout); fflush(stdout); }
+            else {
+                failed = (int)b; failStatus = status;
+                for (size_t c = b + 1; c < batch.size(); c++) kill(pids[c], SIGKILL);
             }
-            else if (op == "f" || op == "r") {
-                bool isRealloc = op == "r";
-                int e = 2; if (!isRealloc) e = t.n();
-                size_t al = t.u(); std::string ps = t.next();
-                unsigned long long na = 0; size_t n = 0;
-                if (isRealloc) { na = t.u(); n = t.u(); if (na >= NSLOTS * SLOT || na % SLOT || n > MAXSIZE) { fprintf(stderr, "harness: bad realloc address/size\n"); exit(3); } }
-                char* p = ps == "~" ? nullptr : real_of(strtoull(ps.c_str(), nullptr, 16));
-                select(e, al);
-                det->outputBuffer_.clear();                          // the report text starts at the category line; period untouched
-                rep.calls = 0; rep.cat = 0; nevents = 0;
-                char* volatile q = nullptr;
-                if (isRealloc) { nextRealloc = real_of(na); PlatformSpecificRealloc = arena_realloc; }
-                armed = true;
-                if (setjmp(opJmp) == 0) {
-                    if (e == 3) obj(al)->free_memory(p, 0, "str.cpp", 4);
-                    else if (e >= 4) det->deallocMemory(obj(al), p, "direct.cpp", 6, e == 5);
-                    else {
-                        lockHeld = threadSafe;
-                        on();
-                        if (isRealloc) q = (char*)cpputest_realloc(p, n);
-                        else if (e == 0) ::operator delete(p);
-                        else if (e == 1) ::operator delete[](p);
-                        else cpputest_free(p);
-                    }
-                }
-                off(); armed = false; lockHeld = false;
-                PlatformSpecificRealloc = savedRealloc; nextRealloc = nullptr;
-                if (isRealloc && q) {
-                    if (q != real_of(na)) { fprintf(stderr, "harness: realloc came back at another address\n"); exit(3); }
-                    blockSize[na / SLOT] = n;
-                    memset(q, 0x5A, n);
-                }
-                out += "| " + hx((unsigned long long)rep.calls) + " " + hx((unsigned long long)rep.cat) + " " + hx((unsigned long long)nevents);
-                for (int i = 0; i < nevents; i++) out += " " + hx(events[i].addr) + " " + (e >= 3 ? std::string("~") : hbytes(evbytes[i], events[i].n));
-                out += " " + hx(det->totalMemoryLeaks(mem_leak_period_all)) + " " + (q ? "1" : "0") + " ";
-            }
-            else if (op == "w") {
-                unsigned long long a = t.u(); std::string bs; t.bytes(bs);
-                if (a >= NSLOTS * SLOT || a % SLOT + bs.size() > SLOT) { fprintf(stderr, "harness: bad write\n"); exit(3); }
-                memcpy(real_of(a), bs.data(), bs.size());
-            }
-            else if (op == "e") {
-                int k = t.n();
-                if (k == 0) det->disable(); else if (k == 1) det->enable(); else if (k == 2) det->startChecking(); else if (k == 3) det->stopChecking();
-                else { fprintf(stderr, "harness: bad period operation\n"); exit(3); }
-            }
-            else if (op == "s") { if (t.u()) det->increaseAllocationStage(); else det->decreaseAllocationStage(); }
-            else if (op == "m") { threadSafe = t.u() != 0; }
-            else if (op == "t") { if (t.u()) det->enableAllocationTypeChecking(); else det->disableAllocationTypeChecking(); }
-            else { fprintf(stderr, "harness: bad op %s\n", op.c_str()); exit(3); }
         }
-        setCurrentNewAllocatorToDefault(); setCurrentNewArrayAllocatorToDefault(); setCurrentMallocAllocatorToDefault();
-        delete det;
-        for (size_t i = objs.size(); i-- > 0;) delete objs[i];
-        objs.clear(); isMla.clear();
-        delete accountant;
-        for (auto* s : names) delete s;
-        names.clear();
-        while (!out.empty() && out.back() == ' ') out.pop_back();
-        puts(out.c_str()); fflush(stdout);
+        if (failed >= 0) {
+            if (WIFSIGNALED(failStatus)) { fprintf(stderr, "harness: scenario process killed by signal %d\n", WTERMSIG(failStatus)); signal(WTERMSIG(failStatus), SIG_DFL); raise(WTERMSIG(failStatus)); _exit(128 + WTERMSIG(failStatus)); }
+            _exit(WIFEXITED(failStatus) && WEXITSTATUS(failStatus) != 0 ? WEXITSTATUS(failStatus) : 3);
+        }
     }
     return 0;
 }
